@@ -109,3 +109,105 @@ Proof.
     split; [constructor; [exact W1|rewrite C1; apply same_static_refl|exact R1|exact T1]|]. split; [discriminate|]. intros _.
     apply alone_unfold. split; [exact W1|]. rewrite C1, N1, R1. split; assumption.
 Qed.
+
+(** ** helpers: what depends only on the static part of the tree *)
+Lemma find_static_hp : forall (l l' : list cblk) j b b',
+    map (static ccmd) l' = map (static ccmd) l -> bfind l j = Some b -> bfind l' j = Some b' ->
+    b_h _ b' = b_h _ b /\ b_par _ b' = b_par _ b /\ b_id _ b' = b_id _ b.
+Proof.
+  induction l as [|x r IH]; intros l' j b b' H F F'; destruct l' as [|x' r']; cbn in H; try discriminate.
+  assert (Hx : static ccmd x' = static ccmd x) by exact (f_equal (fun t => hd (static ccmd x) t) H).
+  assert (Hr : map (static ccmd) r' = map (static ccmd) r) by exact (f_equal (@tl _) H).
+  assert (Hid : b_id ccmd x' = b_id ccmd x) by exact (f_equal (fun t => fst (fst (fst t))) Hx).
+  cbn in F, F'. rewrite Hid in F'. destruct (N.eqb (b_id ccmd x) j).
+  - inversion F; inversion F'; subst. split; [exact (f_equal (fun t => snd (fst t)) Hx)|split; [exact (f_equal (fun t => snd (fst (fst t))) Hx)|exact Hid]].
+  - eapply IH; eassumption.
+Qed.
+
+Lemma anc_at_static : forall (l l' : list cblk) fuel i h,
+    map (static ccmd) l' = map (static ccmd) l -> anc_at ccmd l' fuel i h = anc_at ccmd l fuel i h.
+Proof.
+  intros l l' fuel. induction fuel as [|f IH]; intros i h H; cbn.
+  - destruct (bfind l i) as [b|] eqn:F.
+    + destruct (static_find _ _ i b H F) as (b' & F'). rewrite F'. destruct (find_static_hp _ _ _ _ _ H F F') as (A & _). rewrite A. reflexivity.
+    + destruct (bfind l' i) as [b'|] eqn:F'; [|reflexivity]. symmetry in H. destruct (static_find _ _ i b' H F') as (b & F2). congruence.
+  - destruct (bfind l i) as [b|] eqn:F.
+    + destruct (static_find _ _ i b H F) as (b' & F'). rewrite F'. destruct (find_static_hp _ _ _ _ _ H F F') as (A & B & _). rewrite A, B.
+      destruct (Z.eqb (b_h ccmd b) h); [reflexivity|]. destruct (Z.ltb (b_h ccmd b) h); [reflexivity|]. apply IH. exact H.
+    + destruct (bfind l' i) as [b'|] eqn:F'; [|reflexivity]. symmetry in H. destruct (static_find _ _ i b' H F') as (b & F2). congruence.
+Qed.
+
+Lemma oac_static : forall s s' x,
+    map (static ccmd) (blocks _ _ s') = map (static ccmd) (blocks _ _ s) -> tip _ _ s' = tip _ _ s ->
+    on_active_chain pstate ccmd s' x = on_active_chain pstate ccmd s x.
+Proof.
+  intros s s' x H T. unfold on_active_chain, fuel_of. rewrite T.
+  assert (Hlen : length (blocks pstate ccmd s') = length (blocks pstate ccmd s)).
+  { rewrite <- (map_length (static ccmd) (blocks pstate ccmd s')), H, map_length. reflexivity. }
+  rewrite Hlen.
+  destruct (bfind (blocks pstate ccmd s) x) as [b|] eqn:F.
+  - destruct (static_find _ _ x b H F) as (b' & F'). rewrite F'. destruct (find_static_hp _ _ _ _ _ H F F') as (A & _). rewrite A.
+    rewrite (anc_at_static _ _ _ _ _ H). reflexivity.
+  - destruct (bfind (blocks pstate ccmd s') x) as [b'|] eqn:F'; [|reflexivity]. symmetry in H. destruct (static_find _ _ x b' H F') as (b & F2). congruence.
+Qed.
+
+Lemma frame_static_blocks : forall T s s', md T s s' -> map (static ccmd) (blocks _ _ s') = map (static ccmd) (blocks _ _ s).
+Proof. intros T s s' (H & _). exact H. Qed.
+
+(** flags after one applyBlock *)
+Lemma apply_ok_flags : forall s i s' j b b', c_applyBlock s i = Ok (s', true) ->
+    bfind (blocks _ _ s) j = Some b -> bfind (blocks _ _ s') j = Some b' -> is_failed _ b' = is_failed _ b.
+Proof.
+  intros s i s' j b b' H F F'. unfold c_applyBlock, applyBlock in H.
+  destruct (bfind (blocks pstate ccmd s) i) as [bi|]; [|discriminate].
+  destruct (N.eqb i (root pstate ccmd s)); [discriminate|].
+  destruct (bfind (blocks pstate ccmd s) (b_par ccmd bi)) as [pb|]; [|discriminate].
+  destruct (negb (b_act ccmd pb)); [discriminate|].
+  destruct (b_act ccmd bi); [discriminate|].
+  destruct (child_active ccmd (blocks pstate ccmd s) i); [discriminate|].
+  destruct (b_fc ccmd bi); [discriminate|].
+  destruct (is_failed ccmd bi); [discriminate|].
+  destruct (N.ltb (b_lvl ccmd bi) L_CONNECTED); [discriminate|].
+  destruct (gsexec pstate ccmd cexec cunexec [] (b_gs ccmd bi) (pst pstate ccmd s)) as [p' okg].
+  destruct okg; cbn [negb] in H; [|destruct (invalidate_pop pstate ccmd _ i); cbn in H; [inversion H|discriminate]].
+  match type of H with (if ?c then _ else _) = _ => destruct c end; [discriminate|]. inversion H; subst s'; clear H.
+  cbn [blocks] in F'. rewrite find_upd_any in F' by reflexivity. rewrite F in F'. cbn in F'. inversion F'; subst b'.
+  destruct (N.eqb (b_id ccmd b) i); reflexivity.
+Qed.
+
+Lemma apply_fail_failed : forall s x s', wf s -> c_applyBlock s x = Ok (s', false) ->
+    exists b', bfind (blocks _ _ s') x = Some b' /\ is_failed _ b' = true.
+Proof.
+  intros s x s' W H. destruct (md_apply_fail s x s' W H) as (HS & M).
+  pose proof H as H0. unfold c_applyBlock, applyBlock in H0.
+  destruct (bfind (blocks pstate ccmd s) x) as [b|] eqn:Fb; [|discriminate].
+  destruct (static_find _ _ x b HS Fb) as (b' & Fb'). exists b'. split; [exact Fb'|].
+  destruct (M x b b' Fb Fb') as (A & _ & _ & D & _ & G & _).
+  destruct (is_failed ccmd b) eqn:Hf.
+  - unfold is_failed in *. rewrite A. apply orb_true_iff in Hf. destruct Hf as [Hf|Hf]; [apply orb_true_iff in Hf; destruct Hf as [Hf|Hf]|].
+    + rewrite Hf. reflexivity.
+    + rewrite (D Hf). rewrite orb_true_r. reflexivity.
+    + rewrite (G Hf). apply orb_true_r.
+  - (* the block was valid: it got FAILED_POP *)
+    destruct (N.eqb x (root pstate ccmd s)); [discriminate|].
+    destruct (bfind (blocks pstate ccmd s) (b_par ccmd b)) as [pb|]; [|discriminate].
+    destruct (negb (b_act ccmd pb)); [discriminate|].
+    destruct (b_act ccmd b); [discriminate|].
+    destruct (child_active ccmd (blocks pstate ccmd s) x); [discriminate|].
+    destruct (b_fc ccmd b); [discriminate|].
+    destruct (N.ltb (b_lvl ccmd b) L_CONNECTED); [discriminate|].
+    destruct (gsexec pstate ccmd cexec cunexec [] (b_gs ccmd b) (pst pstate ccmd s)) as [p' okg].
+    destruct okg; cbn [negb] in H0.
+    { match type of H0 with (if ?c then _ else _) = _ => destruct c end; discriminate. }
+    unfold invalidate_pop in H0. cbn [blocks with_pst] in H0. rewrite Fb in H0.
+    assert (Hfp : b_fp ccmd b = false).
+    { unfold is_failed in Hf. apply orb_false_iff in Hf. destruct Hf as [Hf _]. apply orb_false_iff in Hf. apply Hf. }
+    rewrite Hfp, Hf in H0.
+    destruct (on_active_chain pstate ccmd _ x); [discriminate|].
+    destruct (N.eqb (b_lvl ccmd b) L_FULL); cbn in H0; inversion H0; subst s'; clear H0.
+    cbn [blocks with_blocks with_pst] in Fb'.
+    assert (ND : NoDup (ids (blocks _ _ s))) by (destruct W as (ND & _); unfold ids; unfold cores in ND; rewrite map_map in ND; exact ND).
+    rewrite find_mark_desc in Fb' by (rewrite ids_upd by reflexivity; exact ND).
+    rewrite find_upd_any in Fb' by reflexivity. rewrite Fb in Fb'. cbn in Fb'. rewrite (bfind_id _ _ _ Fb), N.eqb_refl in Fb'.
+    inversion Fb'; subst b'. unfold is_failed. destruct (existsb _ _); cbn; rewrite ?orb_true_r; reflexivity.
+Qed.
